@@ -467,3 +467,543 @@ def gen_c13(r, int_frac=0.0, strict_frac=0.0, maxlen=None):
     if ops[-1][0] != "solve":
         ops.append(["solve", 0, {"method": r.choice(C13_METHODS)}])
     return {"knobs": knobs, "ops": ops}
+
+
+# --------------------------------------------------------------------------
+# C12: parameters
+# --------------------------------------------------------------------------
+
+C12_METHODS = ["auto", "SLSQP", "trust-constr", "L-BFGS-B", "SLSQP", "trust-constr", "TNC", "Newton-CG", "BFGS"]
+
+
+def gen_c12_pool(r, deep=0):
+    layout = r.choice(["A", "B", "B", "E"])
+    sp = {"name": "pm", "vars": gen_vars(r, layout), "params": [], "exprs": {}, "cons": {}}
+    np_ = r.randint(1, 3)
+    pl = []
+    for i in range(np_):
+        sp["params"].append({"kind": "scalar", "name": f"p{i}", "value": r.choice(PGRID)})
+        pl.append(["param", f"p{i}"])
+    if r.random() < 0.6:
+        n = r.choice([2, 3])
+        sp["params"].append({"kind": "vector", "name": "q", "n": n, "values": [r.choice(PGRID) for _ in range(n)]})
+        pl.extend(["pel", "q", j] for j in range(n))
+    core = [n for n in S.all_element_names(sp) if n != "w"]
+    L = lambda n: ref_of(sp, n)  # noqa: E731
+    pick = lambda k: r.sample(core, min(k, len(core)))  # noqa: E731
+
+    def sq_sum(names, shift_params=True):
+        parts = []
+        for n in names:
+            t = r.choice(pl) if (shift_params and r.random() < 0.6) else ["num", r.choice(TARGETS)]
+            w = r.choice(POS)
+            s = ["**", ["-", L(n), t], ["num", 2]]
+            parts.append(s if w == 1.0 else ["*", ["num", w], s])
+        for _ in range(deep):
+            parts.append(["*", ["num", 0.0], r.choice(pl)])
+        return parts[0] if len(parts) == 1 else ["chain", "+", parts]
+
+    ex = sp["exprs"]
+    a = pick(3)
+    ex["o0"] = sq_sum(a)  # target shift; strictly convex in the mentioned variables
+    b = pick(3)
+    ex["o1"] = ["+", ["*", r.choice(pl), L(b[0])], sq_sum(b, False)]  # objective coefficient
+    c = pick(2)
+    ex["o2"] = ["+", ["*", ["+", ["*", pl[0], pl[0]], ["num", 0.5]], ["**", L(c[0]), ["num", 2]]], sq_sum(c[1:] or c, True)]  # Hessian entry
+    d = pick(2)
+    ex["o3"] = ["+", ["fn", "exp", ["*", ["*", r.choice(pl), ["num", 0.25]], L(d[0])]], sq_sum(d, False)]  # inside a function
+    e = pick(3)
+    ex["o4"] = ["chain", "+", [["*", r.choice(pl), L(n)] for n in e] + [["num", 1.0]]]  # linear in x with parameter coefficients
+    f = pick(2)
+    ex["o5"] = ["+", ["*", ["*", r.choice(pl), L(f[0])], L(f[-1])], sq_sum(f, True)]  # cross term coefficient
+    # constraint bodies (also compiled directly through handles)
+    g = pick(2)
+    ex["g0"] = ["-", render_linear(r, sp, [(r.choice(POS), n) for n in g]), r.choice(pl)]
+    h = pick(2)
+    ex["g1"] = ["-", ["+", ["*", r.choice(pl), L(h[0])], L(h[-1])], ["num", 1.0]]
+    ex["g2"] = ["-", L(r.choice(core)), r.choice(pl)]
+    cons = sp["cons"]
+    cons["c0"] = {"k": "s", "lhs": render_linear(r, sp, [(r.choice(POS), n) for n in g]), "sense": "<=", "rhs": r.choice(pl)}
+    cons["c1"] = {"k": "s", "lhs": ["+", ["*", r.choice(pl), L(h[0])], L(h[-1])], "sense": ">=", "rhs": ["num", 1.0]}
+    cons["c2"] = gen_lin_con(r, sp, core)
+    cons["c3"] = {"k": "s", "lhs": L(r.choice(core)), "sense": r.choice([">=", "<="]), "rhs": r.choice(pl)}
+    cons["c4"] = {"k": "s", "lhs": ["+", ["**", L(core[0]), ["num", 2]], ["*", r.choice(pl), L(core[-1])]], "sense": "<=", "rhs": ["num", r.choice([4.0, 9.0, 25.0])]}
+    sp["expr_order"] = sorted(ex)
+    sp["con_order"] = sorted(cons)
+    meta = {"convex": ["o0"], "lincons": ["c0", "c2", "c3"]}
+    return sp, meta
+
+
+def _gen_order(r, sp, need):
+    names = S.all_element_names(sp)
+    order = list(need)
+    extra = [n for n in names if n not in need]
+    r.shuffle(extra)
+    order += extra[: r.choice([0, 0, 1, 2])]
+    if r.random() < 0.5:
+        r.shuffle(order)
+    else:
+        order.sort(key=S.natural_key)
+    return order
+
+
+def gen_handle(r, sp, hid, enames):
+    kind = r.choice(["expr", "grad", "jac", "hess", "cexpr", "dictfn", "symgrad", "jac", "hess", "grad"])
+    if kind == "jac":
+        es = r.sample(enames, r.choice([1, 1, 2, 3]))
+        need = set()
+        for e in es:
+            need |= S.mentioned(sp, sp["exprs"][e])
+        return ["compile", 0, hid, "jac", {"es": es, "order": _gen_order(r, sp, sorted(need, key=S.natural_key))}]
+    e = r.choice(enames)
+    need = sorted(S.mentioned(sp, sp["exprs"][e]), key=S.natural_key)
+    a = {"e": e, "order": _gen_order(r, sp, need)}
+    if kind == "symgrad":
+        a["wrt"] = r.choice(need) if need else S.all_element_names(sp)[0]
+    return ["compile", 0, hid, kind, a]
+
+
+def gen_param_op(r, sp):
+    d = r.choice(sp["params"])
+    if d["kind"] == "scalar":
+        return ["param_set", 0, d["name"], r.choice(PGRID)]
+    if r.random() < 0.5:
+        return ["vparam_set", 0, d["name"], [r.choice(PGRID) for _ in range(d["n"])]]
+    return ["pel_set", 0, d["name"], r.randrange(d["n"]), r.choice(PGRID)]
+
+
+def gen_c12(r):
+    knobs = gen_knobs(r, 0.45)
+    deep = r.choice([0, 0, 3, 8]) if knobs["thr_compiler"] != 400 or knobs["thr_autodiff"] != 400 else 0
+    sp, meta = gen_c12_pool(r, deep)
+    ops = [["new_model", 0, sp]]
+    enames = sorted(sp["exprs"])
+    onames = [e for e in enames if e.startswith("o")]
+    cnames = sorted(sp["cons"])
+    hids = []
+    # long-lived artefacts are created early and used late
+    for _ in range(r.randint(1, 4)):
+        hid = f"h{len(hids)}"
+        ops.append(gen_handle(r, sp, hid, enames))
+        hids.append(hid)
+    obj = r.choice(onames)
+    ops.append([r.choice(["minimize", "minimize", "maximize"]) if obj != "o0" else "minimize", 0, obj])
+    cur_obj, cur_sense = obj, ops[-1][0]
+    cur_cons = []
+    for c in r.sample(cnames, r.choice([0, 1, 2])):
+        ops.append(["subject_to", 0, c])
+        cur_cons.append(c)
+    n = r.randint(4, 20)
+    for _ in range(n):
+        k = r.random()
+        if k < 0.30:
+            ops.append(gen_param_op(r, sp))
+        elif k < 0.55:
+            a = {"method": r.choice(C12_METHODS)}
+            if cur_obj in meta["convex"] and cur_sense == "minimize" and all(c in meta["lincons"] for c in cur_cons) and a["method"] in ("SLSQP", "trust-constr"):
+                a["r2"] = True
+            if r.random() < 0.1:
+                a["use_hessian"] = False
+            ops.append(["solve", 0, a])
+        elif k < 0.75 and hids:
+            h = r.choice(hids)
+            ops.append(["call", 0, h, gen_point(r, sp)])
+        elif k < 0.83:
+            ops.append(["evaluate", 0, r.choice(enames), gen_point(r, sp)])
+        elif k < 0.90:
+            hid = f"h{len(hids)}"
+            ops.append(gen_handle(r, sp, hid, enames))
+            hids.append(hid)
+        elif k < 0.95:
+            obj = r.choice(onames)
+            ops.append([r.choice(["minimize", "maximize"]) if obj != "o0" else "minimize", 0, obj])
+            cur_obj, cur_sense = obj, ops[-1][0]
+        else:
+            c = r.choice(cnames)
+            ops.append(["subject_to", 0, c])
+            cur_cons.append(c)
+    # end with a set followed by observations of everything long-lived
+    ops.append(gen_param_op(r, sp))
+    for h in hids[:3]:
+        ops.append(["call", 0, h, gen_point(r, sp)])
+    ops.append(["solve", 0, {"method": r.choice(C12_METHODS)}])
+    return {"knobs": knobs, "ops": ops}
+
+
+# --------------------------------------------------------------------------
+# C14: independent models vs process-wide caches
+# --------------------------------------------------------------------------
+
+C14_METHODS = ["auto", "auto", "SLSQP", "trust-constr", "L-BFGS-B", "linprog", "highs-ds"]
+
+
+def _add_bare_leaves(r, sp):
+    """Bare name-comparing leaves as whole expressions (they become LRU keys by name)."""
+    if sp["params"]:
+        d = sp["params"][0]
+        sp["exprs"]["b0"] = ["param", d["name"]] if d["kind"] == "scalar" else ["pel", d["name"], 0]
+    n = r.choice([n for n in S.all_element_names(sp)])
+    sp["exprs"]["b1"] = ref_of(sp, n)
+    sp["expr_order"] = sorted(sp["exprs"])
+
+
+def gen_any_pool(r, layout=None):
+    if r.random() < 0.5:
+        sp, meta = gen_c12_pool(r)
+        if layout:
+            pass
+    else:
+        sp, meta = gen_pool(r, kinds=("lin", "quad", "nl"), layout=layout, nobj=4, ncon=5, params=r.choice([0, 1, 2]))
+    _add_bare_leaves(r, sp)
+    return sp
+
+
+def mutate_spec(r, sp):
+    """Name-preserving mutation of a spec: same variable / parameter names, other values, bounds, sizes."""
+    import copy
+
+    m = copy.deepcopy(sp)
+    k = r.random()
+    if m["params"] and k < 0.5:
+        for d in m["params"]:
+            if d["kind"] == "scalar":
+                d["value"] = r.choice([v for v in PGRID if v != d["value"]])
+            else:
+                d["values"] = [r.choice(PGRID) for _ in range(d["n"])]
+    elif k < 0.75:
+        for d in m["vars"]:
+            if d.get("domain", "continuous") == "binary":
+                continue
+            lb, ub = gen_bounds(r)
+            d["lb"], d["ub"] = lb, ub
+    else:
+        for d in m["vars"]:
+            if d["kind"] == "scalar" and r.random() < 0.5:
+                d["domain"] = "integer"
+    return m
+
+
+def _setup_ops(r, sp, mid, ncons=None):
+    onames = [e for e in sorted(sp["exprs"]) if e.startswith("o")]
+    cnames = sorted(sp["cons"])
+    ops = [[r.choice(["minimize", "minimize", "maximize"]), mid, r.choice(onames)]]
+    for c in r.sample(cnames, min(len(cnames), r.choice([0, 1, 2]) if ncons is None else ncons)):
+        ops.append(["subject_to", mid, c])
+    return ops
+
+
+def _retarget(op, mid):
+    op = list(op)
+    op[1] = mid
+    return op
+
+
+def gen_observations(r, sp, mid, hids, nmax=4, methods=C14_METHODS):
+    ops = []
+    enames = sorted(sp["exprs"])
+    for _ in range(r.randint(1, nmax)):
+        k = r.random()
+        if k < 0.35:
+            hid = f"h{len(hids)}"
+            ops.append(_retarget(gen_handle(r, sp, hid, enames), mid))
+            hids.append(hid)
+            ops.append(["call", mid, hid, gen_point(r, sp)])
+        elif k < 0.55 and hids:
+            ops.append(["call", mid, r.choice(hids), gen_point(r, sp)])
+        elif k < 0.65:
+            ops.append(["evaluate", mid, r.choice(enames), gen_point(r, sp)])
+        else:
+            ops.append(["solve", mid, {"method": r.choice(methods)}])
+    return ops
+
+
+def gen_c14(r, tier="quick"):
+    knobs = gen_knobs(r, 0.4)
+    M = gen_any_pool(r)
+    ops = []
+    early = r.random() < 0.6
+    hids0 = []
+    setup = _setup_ops(r, M, 0)
+    if early:
+        ops.append(["new_model", 0, M])
+        ops.extend(setup)
+        if r.random() < 0.7:
+            ops.extend(gen_observations(r, M, 0, hids0, 2))
+    # adversarial prefix
+    nadv = r.randint(1, 6)
+    live = []
+    for j in range(nadv):
+        mid = 10 + j
+        if r.random() < 0.6:
+            A = mutate_spec(r, M)
+        else:
+            A = gen_any_pool(r)
+        ops.append(["new_model", mid, A])
+        ops.extend(_setup_ops(r, A, mid))
+        ops.extend(gen_observations(r, A, mid, [], 3))
+        live.append(mid)
+        if r.random() < 0.5:
+            ops.append(["drop_model", live.pop(r.randrange(len(live)))])
+        if r.random() < 0.25:
+            big = tier == "thorough" and r.random() < 0.3
+            ops.append(["flood", r.choice([1100, 4200]) if big else r.choice([5, 20, 70]), f"f{j}"])
+    # observe M: the long-lived copy and a fresh copy built after the prefix
+    if early:
+        ops.extend(gen_observations(r, M, 0, hids0, 4))
+    if not early or r.random() < 0.6:
+        ops.append(["new_model", 1, M])
+        ops.extend(_retarget(o, 1) for o in setup)
+        ops.extend(gen_observations(r, M, 1, [], 4))
+    return {"knobs": knobs, "ops": ops}
+
+
+# --------------------------------------------------------------------------
+# C06 / C07: solver-seam response injection
+# --------------------------------------------------------------------------
+
+BOUNDS_METHODS = {"L-BFGS-B", "TNC", "SLSQP", "Powell", "trust-constr", "Nelder-Mead"}  # optyx passes bounds to these
+
+_GENERIC = [
+    ("gen-success", True, 0, "Optimization terminated successfully."),
+    ("gen-maxiter", False, 1, "Maximum number of iterations has been exceeded."),
+    ("gen-maxfev", False, 1, "Maximum number of function evaluations has been exceeded."),
+    ("gen-prloss", False, 2, "Desired error not necessarily achieved due to precision loss."),
+    ("gen-nan", False, 3, "NaN result encountered."),
+]
+
+MIN_CLASSES = {
+    "SLSQP": [
+        ("slsqp-0", True, 0, "Optimization terminated successfully"),
+        ("slsqp-2", False, 2, "More equality constraints than independent variables"),
+        ("slsqp-3", False, 3, "More than 3*n iterations in LSQ subproblem"),
+        ("slsqp-4", False, 4, "Inequality constraints incompatible"),
+        ("slsqp-5", False, 5, "Singular matrix E in LSQ subproblem"),
+        ("slsqp-6", False, 6, "Singular matrix C in LSQ subproblem"),
+        ("slsqp-7", False, 7, "Rank-deficient equality constraint subproblem HFTI"),
+        ("slsqp-8", False, 8, "Positive directional derivative for linesearch"),
+        ("slsqp-9", False, 9, "Iteration limit reached"),
+    ],
+    "trust-constr": [
+        ("tc-1", True, 1, "`gtol` termination condition is satisfied."),
+        ("tc-2", True, 2, "`xtol` termination condition is satisfied."),
+        ("tc-0", False, 0, "The maximum number of function evaluations is exceeded."),
+        ("tc-3", False, 3, "`callback` raised `StopIteration`."),
+        ("tc-4", False, 4, "Constraint violation exceeds 'gtol'"),
+    ],
+    "L-BFGS-B": [
+        ("lbfgsb-pg", True, 0, "CONVERGENCE: NORM OF PROJECTED GRADIENT <= PGTOL"),
+        ("lbfgsb-rel", True, 0, "CONVERGENCE: RELATIVE REDUCTION OF F <= FACTR*EPSMCH"),
+        ("lbfgsb-maxiter", False, 1, "STOP: TOTAL NO. OF ITERATIONS REACHED LIMIT"),
+        ("lbfgsb-maxfun", False, 1, "STOP: TOTAL NO. OF F,G EVALUATIONS EXCEEDS LIMIT"),
+        ("lbfgsb-abnormal", False, 2, "ABNORMAL: "),
+    ],
+    "TNC": [
+        ("tnc-local", True, 0, "Local minimum reached (|pg| ~= 0)"),
+        ("tnc-fconv", True, 1, "Converged (|f_n-f_(n-1)| ~= 0)"),
+        ("tnc-xconv", True, 2, "Converged (|x_n-x_(n-1)| ~= 0)"),
+        ("tnc-maxfun", False, 3, "Max. number of function evaluations reached"),
+        ("tnc-lsfail", False, 4, "Linear search failed"),
+        ("tnc-infeasible", False, -1, "Infeasible (lower bound > upper bound)"),
+        ("tnc-noprogress", False, 6, "Unable to progress"),
+    ],
+    "COBYLA": [
+        ("cobyla-ok", True, 1, "Optimization terminated successfully."),
+        ("cobyla-maxfev", False, 2, "Maximum number of function evaluations has been exceeded."),
+        ("cobyla-rounding", False, 3, "Rounding errors are becoming damaging in COBYLA subroutine."),
+        ("cobyla-maxcv", False, 4, "Did not converge to a solution satisfying the constraints. See `maxcv` for magnitude of violation."),
+    ],
+    "Powell": _GENERIC + [("powell-oob", False, 4, "The result is outside of the provided bounds.")],
+    "BFGS": _GENERIC,
+    "CG": _GENERIC,
+    "Newton-CG": _GENERIC + [("ncg-warn", False, 2, "Warning: CG iterations didn't converge. The Hessian is not positive definite.")],
+    "Nelder-Mead": _GENERIC,
+}
+
+LP_CLASSES = [
+    ("hi-0", True, 0, "Optimization terminated successfully. (HiGHS Status 7: Optimal)"),
+    ("hi-1t", False, 1, "Time limit reached. (HiGHS Status 13: Time limit reached)"),
+    ("hi-1i", False, 1, "Iteration limit reached. (HiGHS Status 14: Iteration limit reached)"),
+    ("hi-2", False, 2, "The problem is infeasible. (HiGHS Status 8: Infeasible)"),
+    ("hi-3", False, 3, "The problem is unbounded. (HiGHS Status 10: Unbounded)"),
+    ("hi-4", False, 4, "The problem is unbounded or infeasible. (HiGHS Status 9: Unbounded or infeasible)"),
+    ("hi-4n", False, 4, "HiGHS did not provide a status code. (HiGHS Status None: None)"),
+]
+
+
+def _state_after(ops):
+    """Shadow state of model 0 implied by an op prefix (generator-side bookkeeping)."""
+    sh = None
+    for op in ops:
+        if op[0] == "new_model" and op[1] == 0:
+            sh = S.new_shadow(op[2])
+        elif op[0] in ("minimize", "maximize") and op[1] == 0:
+            sh["objective"], sh["sense"] = op[2], "min" if op[0] == "minimize" else "max"
+        elif op[0] == "subject_to" and op[1] == 0:
+            sh["cons"].append(op[2])
+        elif op[0] == "subject_to_list" and op[1] == 0:
+            sh["cons"].extend(op[2])
+        elif op[0] in ("set_lb", "set_ub", "set_domain") and op[1] == 0:
+            sh["ov"].setdefault(op[2], {})[op[0][4:]] = op[3]
+        elif op[0] == "param_set" and op[1] == 0:
+            sh["pv"][op[2]] = op[3]
+    return sh
+
+
+def classify_points(r, sh, n=120):
+    """Seeded candidate points in problem-variable order: {kind: [x...]}."""
+    sp = sh["spec"]
+    names = sorted(S.problem_vars(sh), key=S.natural_key)
+    attrs = S.elem_attrs(sh)
+    out = {"feas": [], "cviol": [], "bviol": [], "any": []}
+    if not names:
+        return names, out
+    for _ in range(n):
+        pt = {}
+        for nm in names:
+            lb, ub, _ = attrs[nm]
+            lo = lb if lb is not None else (ub - 8.0 if ub is not None else -4.0)
+            hi = ub if ub is not None else lo + 8.0
+            if hi < lo:
+                lo, hi = hi, lo
+            pt[nm] = lo + (hi - lo) * r.randrange(0, 17) / 16.0
+        full = dict(pt)
+        try:
+            worst = 0.0
+            for c in sh["cons"]:
+                for v in S.con_violations(sp, sp["cons"][c], full, sh["pv"]):
+                    worst = max(worst, v)
+        except (KeyError, ValueError, ZeroDivisionError, OverflowError):
+            continue
+        x = [pt[nm] for nm in names]
+        out["any"].append(x)
+        if worst == 0.0:
+            out["feas"].append(x)
+        elif worst >= 1e-2:
+            out["cviol"].append(x)
+    bounded = [i for i, nm in enumerate(names) if attrs[nm][0] is not None or attrs[nm][1] is not None]
+    base = out["feas"] or out["any"]
+    for x in base[:10]:
+        if not bounded:
+            break
+        i = r.choice(bounded)
+        lb, ub, _ = attrs[names[i]]
+        y = list(x)
+        if ub is not None and (lb is None or r.random() < 0.5):
+            y[i] = ub + r.choice([0.5, 1.0, 4.0])
+        else:
+            y[i] = lb - r.choice([0.5, 1.0, 4.0])
+        out["bviol"].append(y)
+    return names, out
+
+
+def gen_peer(r, method_entered, sh, lp=False, entry=0, classes=None, xkinds=None):
+    """One scripted answer for the solver entry `entry` (method actually entered is `method_entered`)."""
+    names, pts = classify_points(r, sh)
+    if lp:
+        cls = r.choice(classes or LP_CLASSES)
+        name, success, status, msg = cls
+        if success:
+            return {"mode": "scripted", "entry": entry, "cls": name, "success": True, "status": status, "message": msg, "x": "real", "xkind": "real"}
+        kinds = ["none", "none", "any", "real"]
+        xk = r.choice(xkinds or kinds)
+        x = None if xk == "none" else ("real" if xk == "real" or not pts["any"] else r.choice(pts["any"]))
+        if x == "real":
+            xk = "real"
+        return {"mode": "scripted", "entry": entry, "cls": name, "success": False, "status": status, "message": msg, "x": x, "xkind": xk}
+    table = MIN_CLASSES.get(method_entered, _GENERIC)
+    name, success, status, msg = r.choice(classes or table)
+    kinds = ["real", "feas", "cviol", "cviol", "bviol"]
+    if success and method_entered in BOUNDS_METHODS:
+        kinds = ["real", "feas", "cviol", "cviol"]  # SciPy never leaves the box it was given
+    xk = r.choice(xkinds or kinds)
+    if xk != "real" and not pts[xk]:
+        xk = "real"
+    x = "real" if xk == "real" else r.choice(pts[xk])
+    calls = ["fun", "jac", "cfun", "cjac"]
+    if r.random() < 0.3:
+        r.shuffle(calls)
+    return {"mode": "scripted", "entry": entry, "cls": name, "success": success, "status": status, "message": msg,
+            "x": x, "xkind": xk, "calls": calls, "nit": r.choice([1, 3, 17])}
+
+
+def make_infeasible(r, sp):
+    """Append a contradictory constraint pair k0/k1 (infeasible by construction)."""
+    core = [n for n in S.all_element_names(sp) if n != "w"]
+    terms = lin_terms(r, core, 1, 2)
+    a = r.choice([0.0, 1.0, 2.0])
+    gap = r.choice([0.5, 1.0, 3.0])
+    sp["cons"]["k0"] = {"k": "s", "lhs": render_linear(r, sp, terms), "sense": ">=", "rhs": ["num", a + gap]}
+    sp["cons"]["k1"] = {"k": "s", "lhs": render_linear(r, sp, terms), "sense": "<=", "rhs": ["num", a]}
+    sp["con_order"] = sorted(sp["cons"])
+
+
+C06_METHODS = ["auto", "auto", "auto", "linprog", "highs", "highs-ds", "highs-ipm", "SLSQP", "SLSQP", "trust-constr", "L-BFGS-B",
+               "TNC", "BFGS", "CG", "Newton-CG", "COBYLA", "Nelder-Mead", "Powell"]
+
+
+def entered_method(method, sh, okind, ckinds):
+    """Which solver the generator expects optyx to enter first (only used to pick a response table)."""
+    if method in LP_METHODS:
+        return "lp"
+    if method != "auto":
+        return method
+    lin = okind == "lin" and all(k in ("lin", "vec", "newvar") for k in ckinds)
+    if lin:
+        return "lp"
+    if not ckinds:
+        return "L-BFGS-B"
+    if okind == "nl" or "nl" in ckinds:
+        return "trust-constr"
+    return "SLSQP"
+
+
+def gen_c06(r, tier="quick", c07=False):
+    knobs = gen_knobs(r, 0.7)
+    kinds = r.choice([("lin",), ("lin", "quad"), ("quad", "nl"), ("lin", "quad", "nl")])
+    sp, meta = gen_pool(r, kinds=kinds, nobj=3, ncon=5, layout=r.choice(["A", "B", "C", "D", "E"]) if c07 else None)
+    inf = r.random() < (0.2 if c07 else 0.4)
+    if inf:
+        make_infeasible(r, sp)
+        meta["ckinds"]["k0"] = meta["ckinds"]["k1"] = "lin"
+    ops = [["new_model", 0, sp]]
+    o = r.choice(sorted(sp["exprs"]))
+    ops.append([r.choice(["minimize", "maximize"] if c07 else ["minimize", "minimize", "maximize"]), 0, o])
+    base = [c for c in sorted(sp["cons"]) if c not in ("k0", "k1")]
+    cs = r.sample(base, r.choice([0, 1, 2, 3]))
+    if inf:
+        cs += ["k0", "k1"]
+        r.shuffle(cs)
+    for c in cs:
+        ops.append(["subject_to", 0, c])
+    for si in range(r.choice([1, 1, 2, 3])):
+        sh = _state_after(ops)
+        method = r.choice(C06_METHODS)
+        a = {"method": method}
+        ent = entered_method(method, sh, meta["okinds"][sh["objective"]], [meta["ckinds"][c] for c in sh["cons"]])
+        k = r.random()
+        if r.random() < 0.25:
+            a["tol"] = r.choice([1e-4, 1e-6, 1e-8])
+        if r.random() < 0.3:
+            names = sorted(S.problem_vars(sh), key=S.natural_key)
+            pt = gen_point(r, sp, names)
+            if ent != "lp" and names:
+                a["x0"] = [pt[n] for n in names]
+        if k < 0.35:
+            if r.random() < 0.3 and ent != "lp":
+                a["maxiter"] = r.choice([1, 2, 3, 10])
+        elif k < 0.5:
+            a["peers"] = [{"mode": "truncate", "entry": 0, "k": r.choice([1, 1, 2, 3, 5])}]
+        else:
+            peers = [gen_peer(r, ent, sh, lp=(ent == "lp"), entry=0)]
+            if ent == "SLSQP" and r.random() < 0.6:
+                peers.append(gen_peer(r, "trust-constr", sh, entry=1))
+            a["peers"] = peers
+        ops.append(["solve", 0, a])
+        if r.random() < 0.2:
+            # an edit between solves (cached closures / LP data get rebuilt)
+            ops.append(["subject_to", 0, r.choice(base)])
+    return {"knobs": knobs, "ops": ops}
+
+
+def gen_c07(r, tier="quick"):
+    return gen_c06(r, tier, c07=True)
